@@ -625,7 +625,11 @@ def w_alt_constructors(ctx, rng, i):
             b2_ = PCAVectorModel(X2.copy(), centre=False)
             lam2 = np.linalg.svd(X2, compute_uv=False) ** 2 / (n2 - 1)
             lam2 = lam2[lam2 > 1e-5 * lam2[0]]
-            if m2_.n_components != len(lam2) or m2_.n_components != b2_.n_components:
+            # (the two constructors cut at different documented floors - 1e-5 and 1e-10 of the largest eigenvalue: their component
+            # counts are only compared when no eigenvalue lies anywhere near either floor)
+            all2 = np.linalg.svd(X2, compute_uv=False) ** 2
+            mild = all2.min() > 1e-3 * all2.max()
+            if m2_.n_components != len(lam2) or (mild and m2_.n_components != b2_.n_components):
                 ctx.fail("number_of_components_differs_from_rank", cls="PCAVectorModel", mech="alt_ctor_uncentred_covariance", got=int(m2_.n_components), expected=int(len(lam2)))
             elif _amax(m2_._eigenvalues - lam2) > 1e-7 * lam2[0]:
                 ctx.fail("eigenvalues_are_not_the_sample_variances_along_the_components", cls="PCAVectorModel", mech="alt_ctor_uncentred_covariance")
